@@ -109,7 +109,8 @@ def check(case, ctx):
     try:
         S = specs.build(spec)
     except DeclarationError as e:
-        raise HarnessError(f"undeclarable spec {spec!r}: {e}")
+        ctx.skip_undeclarable(None, e)
+        return
     v = values.realize(case["value"])
     before = canon.canon(S)
     ctx.label("kind:" + case["kind"])
